@@ -25,6 +25,7 @@ CFG = {
         "encoder-choices: the real encoder's choices are recovered from its bytes (extracted Vp8lTrace.trace_decode), checked with the sound boolean checker wf_planb and re-emitted byte-exactly by the model emitter; when both hold the proved emit_decode / lossless_roundtrip chain applies to that run's actual bytes (counter encoder-choices:valid); this is the per-run validation of the nondeterministic model encoder",
         "source kinds: NRGBA, RGBA, Gray, Paletted, NRGBA64, NRGBA/RGBA sub-images, generic wrapper, and sub-images with Bounds().Min != (0,0) of Gray, Gray16, Alpha, Alpha16, CMYK, NRGBA64, RGBA64, Paletted, YCbCr, NYCbCrA plus a custom image.Image with offset bounds, crossed deterministically with {no metadata, ICC, EXIF, XMP, all} x Exact (both encoder paths)",
         "encoder-data-path: for every round trip up to 40x40 the model's forward transform chain (Vp8lImport.forward_chain with the transforms and tile data / palette recovered from the encoder's stream) is applied to the cleaned source pixels and compared pixel by pixel with the residual image the encoder's tokens denote (counter encoder-data-path:forward-chain(source)=residual-image; a difference is counted as encoder-data-path:DIFFERS-..., the round-trip itself stays the violation criterion)",
+        "domain audit: a violation is reported only when Decode fails on, or returns pixels / dimensions other than the source's from, the bytes Encode wrote for an in-range image and option set; per pixel the accepted outcomes are the source pixel, or transparent black when the source alpha is 0 and Exact is off (the statement says 'may', so an encoder that keeps hidden colours without Exact is accepted too; counters observation:alpha-0-*). Demoted to observation:* counters: encode-error (an Encode error writes no bytes: C20/C02), no-vp8l-chunk (file layout: C02), sem-of-recovered-plan-differs-from-decode (decoder vs format: C03). The dec cases carry only the implementation-model field (specification decoder = model of the decoder half); the imp cases print the canonical accepted outcome",
         "unp cases: all 32896 valid premultiplied (channel, alpha) pairs through the *image.RGBA fast path (streaming and writeRIFF paths) vs the model of the repaired fast path (I) and the colour-model formula (S)",
         "defects found on the pinned tree, fixed in /repo: 56944c7 (in-place packed colour-index inverse: <=16 colours, Method>=5, Quality>=75 decoded wrong) and 83481fc (RGBA fast path un-premultiply off by one for 15193 pairs)",
     ],
